@@ -177,6 +177,32 @@ def case_chain(fa, fb, fc, flags, cid, vs, ts):
     cs = allcoords(vs); c1 = [ra(x) for x in cs]; c2 = [rb(x) for x in c1]
     return "c15 " + " ".join(map(str, [6, fa, fb, fc, flags, cid] + mesh_wire(vs, ts) + table(cs, ra) + table(c1, rb) + table(c2, rc)))
 
+def case_reload(fmt, flags, cid, m1, m2):
+    cs = allcoords(m1[0]) + allcoords(m2[0])
+    return "c15 " + " ".join(map(str, [7, fmt, flags, cid] + mesh_wire(*m1) + mesh_wire(*m2) + table(cs, rnd_of(fmt))))
+
+def seam_mesh(rng):
+    """a closed or open surface in which some points are listed twice (a seam): each twin is used by part of the triangles
+    around the point.  Exact twins: the file written from it repeats the point."""
+    kind, vs, ts = base_mesh(rng)
+    mag = 10.0 ** rng.randint(-3, 3)
+    vs = [tuple(c * mag for c in v) for v in vs]; ts = list(ts)
+    for _ in range(rng.randint(1, 3)):
+        i = rng.randrange(len(vs)); j = len(vs)
+        vs.append(vs[i] if rng.random() < 0.4 else tuple(c * (1 + 1e-10) for c in vs[i]))   # exact twin, or a twin that collides once written
+        use = [k for k, t in enumerate(ts) if i in t]
+        for k in use[:max(1, len(use) // 2)]: ts[k] = tuple(j if a == i else a for a in ts[k])
+    return vs, ts
+
+def relation_reload(fresh, used):
+    """loading a file into a used Mesh gives the same mesh as loading it into a fresh one (vertex entries, distinct vertices,
+    local triangles, coordinates); None if it holds"""
+    if fresh["nv"] != used["nv"]: return "vertex entries %d (fresh) vs %d (reused)" % (fresh["nv"], used["nv"])
+    if len(set(fresh["gidx"])) != len(set(used["gidx"])): return "distinct vertices %d (fresh) vs %d (reused)" % (len(set(fresh["gidx"])), len(set(used["gidx"])))
+    if local_tris(fresh) != local_tris(used): return "triangles differ: %s (fresh) vs %s (reused)" % (local_tris(fresh)[:4], local_tris(used)[:4])
+    if [[bits(x + 0.0) for x in v] for v in fresh["coords"]] != [[bits(x + 0.0) for x in v] for v in used["coords"]]: return "coordinates differ"
+    return None
+
 def second_mesh(rng, vs, ts):
     """a mesh sharing some vertices (exact coordinates) with (vs, ts): shifted copy glued along coincident points, or a random one"""
     c = rng.random()
@@ -317,7 +343,7 @@ def witnesses():
     w.append(("bowtie", case_roundtrip(1, 0, bt, [(0, 1, 2), (2, 3, 4), (3, 4, 5)])))
     return w
 
-OPN = {1: "roundtrip", 2: "writer", 3: "merge", 4: "om_mesh_convert", 5: "om_mesh_concat", 6: "om_mesh_convert chain"}
+OPN = {1: "roundtrip", 2: "writer", 3: "merge", 4: "om_mesh_convert", 5: "om_mesh_concat", 6: "om_mesh_convert chain", 7: "load into fresh and used Mesh"}
 
 def describe(line):
     w = parse_case(line); op = w[0]
@@ -328,6 +354,8 @@ def describe(line):
     if op == 4: return "om_mesh_convert %s->%s" % (FMT[w[1]], FMT[w[2]]), read_mesh(w, 5)[:2]
     if op == 5:
         vs, ts, p = read_mesh(w, 4); return "om_mesh_concat %s" % FMT[w[1]], (vs, ts) + read_mesh(w, p)[:2]
+    if op == 7:
+        vs, ts, p = read_mesh(w, 4); return "load %s into fresh/used Mesh" % FMT[w[1]], (vs, ts) + read_mesh(w, p)[:2]
     if op == 6: return "om_mesh_convert chain %s->%s->%s" % (FMT[w[1]], FMT[w[2]], FMT[w[3]]), read_mesh(w, 6)[:2]
     return "?", ()
 
@@ -341,9 +369,9 @@ def short(line):
 def rebuild(line, ts_new, which=0):
     """same case with the triangle list of mesh `which` replaced (for shrinking)"""
     w = parse_case(line); op = w[0]
-    hdr = {1: 3, 2: 4, 3: 2, 4: 5, 5: 4, 6: 6}[op]
+    hdr = {1: 3, 2: 4, 3: 2, 4: 5, 5: 4, 6: 6, 7: 4}[op]
     vs, ts, p = read_mesh(w, hdr)
-    if op in (3, 5):
+    if op in (3, 5, 7):
         vs2, ts2, p2 = read_mesh(w, p)
         if which == 0: mid = mesh_wire(vs, ts_new) + mesh_wire(vs2, ts2)
         else: mid = mesh_wire(vs, ts) + mesh_wire(vs2, ts_new)
@@ -450,6 +478,17 @@ def main(replay=None):
         for i in range(rng.randint(0, 6), len(ts), 7): a, b, c_ = ts[i]; ts[i] = (b, a, c_)
         for fmt in (0, 1):
             cases.append(case_roundtrip(fmt, 0, vs, ts)); labels.append("roundtrip:ico2,flipped")
+        # level-3 sphere (1280 triangles) with every 5th triangle flipped, written unrepaired
+        vs, ts = models.icosphere(3); vs = [tuple(float(c) * 0.0913 for c in v) for v in vs]; ts = list(ts)
+        for i in range(rng.randint(0, 4), len(ts), 5): a, b, c_ = ts[i]; ts[i] = (b, a, c_)
+        cases.append(case_roundtrip(rng.choice([1, 2, 3]), 0, vs, ts)); labels.append("roundtrip:level3,flipped")
+        # files that list a point twice (seams), loaded into a fresh Mesh and into a Mesh that already loaded another file
+        for n in range(24 if quick else 240):
+            v2, t2 = seam_mesh(rng)
+            _, v1, t1 = gen_mesh(rng, allow_bad=False)
+            if n % 3 == 0: v1, t1 = v2, t2                      # the same file twice
+            elif n % 3 == 1 and len(v1) > 2: v1[0] = v2[0]; v1[-1] = v2[-1]   # earlier content shares points with the file
+            cases.append(case_reload(n % 4, 1, len(cases), (v1, t1), (v2, t2))); labels.append("reload:seam")
         # tool-level round trips through om_mesh_convert: closed and open surfaces, both windings, all format pairs over a run
         chains = [(0, 1, 0), (1, 0, 1), (0, 2, 0), (2, 3, 2), (3, 0, 3), (1, 3, 1), (0, 3, 1), (2, 1, 0), (3, 2, 0), (1, 2, 3)]
         shapes = [("closed", lambda: models.icosphere(rng.choice([0, 1]))), ("closed", lambda: models.octasphere(1)),
@@ -483,6 +522,18 @@ def main(replay=None):
                 unused = set(before["gidx"]) - {a for t in before["tris"] for a in t}
                 r = relation_roundtrip(fmt, before, after)
                 if r: relfail.append((c, lab, fmt, r, bool(unused)))
+    # loading into a used object (op 7): fresh and reused loads must describe the same mesh
+    for c, lab, m, i in zip(cases, labels, mo, io):
+        if c.split()[1] != "7" or i.startswith("CRASH"): continue
+        o = [int(x) for x in i.split()]
+        if o[0] != 0: continue
+        fresh, p = parse_dump(o, 1); used = parse_dump(o, p + 1)[0]
+        r = relation_reload(fresh, used)
+        if r:
+            ck.violation("%s: %s" % (describe(c)[0], short(c)[:200]),
+                         "a mesh file loads differently into a fresh Mesh and into a Mesh that has already loaded a file (%s): %s" % (r, short(c)),
+                         dict(kind="property-relation", cases=[c], replay_cmd="./check C15 --replay <this file>"))
+            break
     # ---- decide
     relfail.sort(key=lambda x: len(x[0]))          # smallest failing meshes first
     for n, (c, lab, fmt, r, unused) in enumerate(relfail[:6]):
